@@ -53,7 +53,7 @@ def run_one(job):
     try:
         open(os.path.join(d, "s.py"), "w").write(src)
         env = common.backend_env(backend)
-        env["PYTHONPATH"] = os.pathsep.join([p for p in [env.get("PYTHONPATH", ""), "/repo"] if p])
+        env["PYTHONPATH"] = os.pathsep.join([p for p in [env.get("PYTHONPATH", ""), common.REPO] if p])
         pr = subprocess.run([common.PY, "s.py"], cwd=d, env=env, capture_output=True, text=True, timeout=120)
         files = sorted(os.listdir(d))
         out = {"status": pr.returncode, "files": files, "stderr": pr.stderr[-2000:], "stdout": pr.stdout[-500:]}
